@@ -8,7 +8,7 @@ open MW
 
 /-- tie B: the statements of `Child` / `String` that decide the byte layout read today as the model assumes -/
 theorem gen_shapes_expected :
-    Gen.Bip32.childKeyExpr = "ilNum.Bytes()" ∧
+    Gen.Bip32.childKeyExpr = "paddedAppend(32, nil, ilNum.Bytes())" ∧
     Gen.Bip32.childHardenedCopy = "copy(data[1:], k.key)" ∧
     Gen.Bip32.childNormalCopy = "copy(data, k.pubKeyBytes())" ∧
     Gen.Bip32.stringPrivateBranch =
